@@ -1,5 +1,9 @@
 """C10 — well-formed designs elaborate without combinational loops."""
+import random
+
+from ..coregen.gen import generate_cond
 from ..coregen.prop import CoreProp
+from ..kernel import h64
 
 
 class Prop(CoreProp):
@@ -10,6 +14,16 @@ class Prop(CoreProp):
     feat = {'p_fwd': 0.5, 'p_nested': 0.3, 'n_before': (0, 2), 'rdep': True, 'n_conflicts': (0, 2), 'prio': True}
     rule = 'one run = one generated program (1-3 modules, 1-5 transactions, 0-6 methods, call depth <= 3, nested bodies, If/Switch/FSM around bodies and calls, enable_call, validate_arguments, aliases, nonexclusive methods, Forwarder-style readiness on the run of bodies scheduled before) under one arbiter and one internal set order, driven for 60-160 cycles by a seeded phase plan (random / all-on contention / single-method stall / flapping / exhaustive valuation sweep when <= 10 one-bit inputs); distinct = distinct (program, arbiter, set of transactions running in a cycle); non-trivial = at least one transaction ran'
     expected_cov = ['concurrent_transactions']
+
+    def gen_config(self, rng, tier, idx):
+        cfg = super().gen_config(rng, tier, idx)
+        if idx % 4 == 3:  # the statement names condition() blocks explicitly
+            prng = random.Random(h64(self.master_seed, self.ID, "cond-program", idx))
+            cfg["prog"] = generate_cond(prng)
+        return cfg
+
+    def violation_class(self, feats):
+        return {k: feats.get(k) for k in ("kind", "cond_in_conditionally_called_method", "cond_branch_reaches_validate")}
 
 
 PROP = Prop()
